@@ -231,20 +231,20 @@ Proof. intros. split; [constructor; lia | reflexivity]. Qed.
 Ltac casestep IHe IHm IHs :=
   match goal with
   | |- context [eval g ?f ?e ?a ?p ?w] =>
-      let E := fresh "E" in let I := fresh "I" in
-      pose proof (IHe e a p w) as I; destruct (eval g f e a p w) eqn:E; cbn [inv] in I
+      let E := fresh "E" in let J := fresh "J" in
+      pose proof (IHe e a p w) as J; destruct (eval g f e a p w) eqn:E; cbn [inv] in J
   | |- context [more g ?f ?e ?a ?p ?w] =>
-      let E := fresh "E" in let I := fresh "I" in
-      pose proof (IHm e a p w) as I; destruct (more g f e a p w) eqn:E; cbn [inv] in I
+      let E := fresh "E" in let J := fresh "J" in
+      pose proof (IHm e a p w) as J; destruct (more g f e a p w) eqn:E; cbn [inv] in J
   | |- context [skip g ?f ?a ?p ?w] =>
-      let E := fresh "E" in let I := fresh "I" in
-      pose proof (IHs a p w) as I; destruct (skip g f a p w) eqn:E; cbn [inv] in I
+      let E := fresh "E" in let J := fresh "J" in
+      pose proof (IHs a p w) as J; destruct (skip g f a p w) eqn:E; cbn [inv] in J
   end.
 
 Ltac fin :=
-  cbn [inv]; try exact I;
+  cbn [inv];
   repeat match goal with H : _ /\ _ |- _ => destruct H end;
-  try (split; [ repeat (eapply fwf_app; [eassumption|]); try eassumption; try (constructor; lia) | lia ]).
+  split; [ first [ eapply fwf_app; [eassumption | eapply fwf_app; eassumption] | eapply fwf_app; eassumption ] | lia ].
 
 Lemma inv_all : forall f,
   (forall e a p w, inv p w (eval g f e a p w)) /\
@@ -261,7 +261,7 @@ Proof.
       * destruct w as [|c w']; [exact I|]. destruct ((lo <=? c) && (c <=? hi)); [|exact I].
         pose proof (ulen_pos c). split; [constructor; lia | cbn [blen]; lia].
       * destruct (find_rule (pg_rules g) r) as [[m body]|]; [|exact I]. cbv zeta.
-        casestep IHe IHm IHs; try exact I. destruct I as [I1 I2].
+        casestep IHe IHm IHs; try exact I. destruct J as [I1 I2].
         assert (Hn : inv p w (Ok [Node r p pos ts] pos rest)).
         { split; [|exact I2]. pose proof (fwf_le _ _ _ I1). constructor; [lia | exact I1 | constructor; lia]. }
         destruct m; try (destruct (atom_eqb_atomic a); [split; assumption | exact Hn]). split; assumption.
@@ -272,21 +272,22 @@ Proof.
            split; [|reflexivity]. constructor; [lia | constructor; lia | constructor; lia].
         -- destruct w as [|c w']; [exact I|].
            destruct (c =? 10) eqn:E10.
-           { apply N.eqb_eq in E10. subst c. split; [constructor; lia | cbn; lia]. }
+           { apply N.eqb_eq in E10. subst c. split; [constructor; lia | cbn [blen]; change (ulen 10) with 1; lia]. }
            destruct (c =? 13) eqn:E13; [|exact I]. apply N.eqb_eq in E13. subst c.
-           destruct w' as [|d w'']; [split; [constructor; lia | cbn; lia]|].
-           destruct (d =? 10) eqn:D10; [apply N.eqb_eq in D10; subst d|]; (split; [constructor; lia | cbn; lia]).
-      * casestep IHe IHm IHs; try exact I. casestep IHe IHm IHs; try exact I. casestep IHe IHm IHs; try exact I. fin.
-      * casestep IHe IHm IHs; try exact I. apply IHe.
-      * casestep IHe IHm IHs; try exact I; [|apply inv_ok_nil]. casestep IHe IHm IHs; try exact I. fin.
-      * casestep IHe IHm IHs; try exact I. casestep IHe IHm IHs; try exact I. fin.
-      * casestep IHe IHm IHs; try exact I. apply inv_ok_nil.
-      * destruct n as [|[|n']]; [apply inv_ok_nil | apply IHe | apply IHe].
-      * casestep IHe IHm IHs; try exact I. apply inv_ok_nil.
-      * casestep IHe IHm IHs; try exact I. apply inv_ok_nil.
+           destruct w' as [|d w'']; [split; [constructor; lia | cbn [blen]; change (ulen 13) with 1; lia]|].
+           destruct (d =? 10) eqn:D10; [apply N.eqb_eq in D10; subst d|];
+             (split; [constructor; lia | cbn [blen]; change (ulen 13) with 1; try change (ulen 10) with 1; lia]).
+      * (* PSeq *) casestep IHe IHm IHs; try exact I. casestep IHe IHm IHs; try exact I. casestep IHe IHm IHs; try exact I. fin.
+      * (* PAlt *) casestep IHe IHm IHs; [exact J | apply IHe | exact I].
+      * (* PStar *) casestep IHe IHm IHs; [| apply inv_ok_nil | exact I]. casestep IHe IHm IHs; try exact I. fin.
+      * (* PPlus *) casestep IHe IHm IHs; try exact I. casestep IHe IHm IHs; try exact I. fin.
+      * (* POpt *) casestep IHe IHm IHs; [exact J | apply inv_ok_nil | exact I].
+      * (* PRep *) destruct n as [|[|n']]; [apply inv_ok_nil | apply IHe | apply IHe].
+      * (* PAnd *) casestep IHe IHm IHs; [apply inv_ok_nil | exact I | exact I].
+      * (* PNot *) casestep IHe IHm IHs; [exact I | apply inv_ok_nil | exact I].
     + intros x a p w. rewrite more_S.
-      casestep IHe IHm IHs; try exact I; [|apply inv_ok_nil].
-      casestep IHe IHm IHs; try exact I; [|apply inv_ok_nil].
+      casestep IHe IHm IHs; [| apply inv_ok_nil | exact I].
+      casestep IHe IHm IHs; [| apply inv_ok_nil | exact I].
       casestep IHe IHm IHs; try exact I. fin.
     + intros a p w. rewrite skip_S. destruct a; try apply inv_ok_nil. apply IHe.
 Qed.
@@ -304,14 +305,23 @@ Proof.
   constructor; try lia; [apply IHch; lia | apply IHts; lia].
 Qed.
 
-Theorem peg_tree_wf : forall start w ts p' w',
-  peg_parse g start w = Ok ts p' w' ->
-  fwf 0 p' ts /\ spans_in 0 (blen w) ts /\ p' + blen w' = blen w.
+Lemma eval_wf : forall f e a p w ts p' w',
+  eval g f e a p w = Ok ts p' w' -> fwf p p' ts /\ p' + blen w' = p + blen w.
 Proof.
-  intros start w ts p' w' H. unfold peg_parse in H.
-  pose proof (proj1 (inv_all (fuel_for w)) (PRef start) NonAtomic 0 w) as I. rewrite H in I. cbn [inv] in I.
-  destruct I as [I1 I2]. split; [exact I1|]. split; [|lia].
-  apply (fwf_spans_in _ _ _ I1); lia.
+  intros f e a p w ts p' w' H. pose proof (proj1 (inv_all f) e a p w) as X. rewrite H in X. exact X.
 Qed.
 
 End Proofs.
+
+(* keep the kernel from unfolding [eval] along the (large, unary) fuel when it compares [peg_parse] with its body *)
+Opaque fuel_for.
+Theorem peg_tree_wf : forall g start w ts p' w',
+  peg_parse g start w = Ok ts p' w' ->
+  fwf 0 p' ts /\ spans_in 0 (blen w) ts /\ p' + blen w' = blen w.
+Proof.
+  intros g start w ts p' w' H. unfold peg_parse in H.
+  destruct (eval_wf g _ _ _ _ _ _ _ _ H) as [I1 I2].
+  split; [exact I1|]. split; [|lia].
+  apply (fwf_spans_in _ _ _ I1); lia.
+Qed.
+Transparent fuel_for.
